@@ -32,7 +32,10 @@ def extra(ctx, res):
         v = ctx.view(f"{cls}.{m}")
         # every mention of an adjacency table (read, iterated, or handed to a helper) and every read done by a helper
         ment = [(tab, n) for _, tab, n, may in v.mentions() if tab in (own, other) and not may]
-        via = [(o.table, o.node) for o in v.call_ops() if o.table in (own, other) and not o.may]
+        # (a helper that is HANDED the incidence list - `self._edges_by_ids(self._adj_target[node], ...)` - reads whatever list it is
+        # given: its reads are attributed through the argument, which `ment` already holds, not through the other callers' tables)
+        handed = {id(c) for c in walk_no_nested(v.fi.node) if isinstance(c, ast.Call) and any(isinstance(x, ast.Attribute) and x.attr in (own, other) for a_ in list(c.args) + [k.value for k in c.keywords] for x in ast.walk(a_))}
+        via = [(o.table, o.node) for o in v.call_ops() if o.table in (own, other) and not o.may and id(o.node) not in handed]
         seen = ment + via
         if any(t == own for t, _ in seen):
             res.ok("K-ROLE", v.fi.short, f"reads {own}", own, loc(v.fi, v.fi.node))
